@@ -39,10 +39,12 @@ def load_known():
     return known, fixed
 
 
-def gen_unit(unit, canary=False):
+def gen_unit(unit, canary=False, sub=None):
     tpl = os.path.join(ROOT, 'units', unit + '.rs')
     g = extract.generate(tpl, REPO, unit, canary=canary)
-    out = os.path.join(BUILD, unit + ('_canary' if canary else '') + '.rs')
+    d = os.path.join(BUILD, sub) if sub else BUILD
+    os.makedirs(d, exist_ok=True)
+    out = os.path.join(d, unit + ('_canary' if canary else '') + '.rs')
     trailer = extract.header_comment(g, unit, REPO, tpl)
     with open(out, 'w') as f:
         f.write(g.text())
@@ -110,8 +112,8 @@ def run_property(pid, tier, seed):
     # 1. extract
     for unit in spec.get('units', []):
         try:
-            g, path = gen_unit(unit)
-            gc, pathc = gen_unit(unit, canary=True)
+            g, path = gen_unit(unit, sub=pid)
+            gc, pathc = gen_unit(unit, canary=True, sub=pid)
         except extract.AnchorLost as e:
             inconclusive.append('anchor-lost unit=%s: %s' % (unit, e))
             continue
@@ -145,7 +147,7 @@ def run_property(pid, tier, seed):
     verus_cmds = []
     for unit, (g, path, gc, pathc) in gens.items():
         r = results[(unit, 'main', None)]
-        verus_cmds.append('cd build && ' + r.cmd)
+        verus_cmds.append('cd build/%s && %s' % (pid, r.cmd))
         smt_ms += r.smt_ms
         if r.tool_errors:
             for te in r.tool_errors:
